@@ -148,7 +148,14 @@ func (root *Root) resolve(
 	switch tt := t.(type) {
 	case *List:
 		result, ea = root.resolveList(obj, vars, field, tt, depth-1)
-	case *Object, *Schema, *Interface, *uuSchema:
+	case *Object, *Schema, *uuSchema:
+		result, ea = root.resolveFieldSels(obj, vars, field, t, depth-1)
+	case *Interface:
+		// Resolve as the object type bound to the Go type of obj if there is
+		// one so that __typename and type conditions see the concrete type.
+		if ct := root.implementor(obj, tt); ct != nil {
+			t = ct
+		}
 		result, ea = root.resolveFieldSels(obj, vars, field, t, depth-1)
 	case *NonNull:
 		result, ea = root.resolve(obj, vars, field, tt.Base, depth)
@@ -156,20 +163,25 @@ func (root *Root) resolve(
 		resMap := map[string]interface{}{}
 		result = resMap
 		// Use reflection to get the type meta for the object then walk
-		// through all the members of the union looking for a match. The
-		// object may have its meta field already set but the first time it
-		// will be nil so check for a @go directive then a type argument that
-		// matches the object type. If there is a match then set the meta.
+		// through all the members of the union looking for the one bound to
+		// that Go type. A member without a Go type yet is bound by its @go
+		// directive or its name if either matches the object type.
 		objType := reflect.TypeOf(obj)
+		var unbound *Object
 		for _, m := range tt.Members {
 			if ot, _ := m.(*Object); ot != nil { // already checked in validation
-				if meta, err := ot.metaCheck(objType); err != nil {
-					return nil, []error{err}
-				} else if objType == meta {
-					result, ea = root.resolveFieldSels(obj, vars, field, m, depth-1)
-					break
+				match, bound := ot.metaMatch(objType)
+				if match {
+					return root.resolveFieldSels(obj, vars, field, m, depth-1)
+				}
+				if !bound && unbound == nil {
+					unbound = ot
 				}
 			}
+		}
+		if unbound != nil {
+			return nil, []error{resError(unbound.line, unbound.col,
+				"failed to determine union member %s implementation type. Use @go directive", unbound.N)}
 		}
 	default:
 		// Validation makes sure all output types are valid so no need to
@@ -801,7 +813,7 @@ func (root *Root) resolveInline(
 	result map[string]interface{},
 	depth int) (ea []error) {
 
-	if sel.Condition == nil || sel.Condition == t {
+	if fragmentApplies(sel.Condition, t) {
 		ea = root.resolveSels(obj, vars, sel.Sels, t, result, depth)
 	}
 	return
@@ -815,13 +827,58 @@ func (root *Root) resolveFragRef(
 	result map[string]interface{},
 	depth int) (ea []error) {
 
-	if sel.Fragment.Condition == nil || sel.Fragment.Condition == t {
+	if fragmentApplies(sel.Fragment.Condition, t) {
 		ea = root.resolveSels(obj, vars, sel.Fragment.Sels, t, result, depth)
 		if 0 < len(ea) {
 			Errors(ea).in(fmt.Sprintf("fragment at %d:%d", sel.Line(), sel.Column()))
 		}
 	}
 	return
+}
+
+// fragmentApplies reports whether a fragment with the type condition cond
+// applies to an object being resolved as type t: no condition, the type
+// itself, an interface t implements or a union t is a member of.
+func fragmentApplies(cond, t Type) bool {
+	if cond == nil || cond == t {
+		return true
+	}
+	if ot, _ := t.(*Object); ot != nil {
+		switch ct := cond.(type) {
+		case *Interface:
+			for _, i := range ot.Interfaces {
+				if i == cond {
+					return true
+				}
+			}
+		case *Union:
+			for _, m := range ct.Members {
+				if m == t {
+					return true
+				}
+			}
+		}
+	}
+	return false
+}
+
+// implementor returns the object type that implements the interface and is
+// bound to the Go type of obj or nil if there is none.
+func (root *Root) implementor(obj interface{}, it *Interface) Type {
+	objType := reflect.TypeOf(obj)
+	for _, t := range root.types.list {
+		if ot, _ := t.(*Object); ot != nil {
+			for _, i := range ot.Interfaces {
+				if i == Type(it) {
+					if match, _ := ot.metaMatch(objType); match {
+						return ot
+					}
+					break
+				}
+			}
+		}
+	}
+	return nil
 }
 
 func (root *Root) getFieldDef(t Type, name string) (fd *FieldDef) {
